@@ -1,7 +1,7 @@
 """C14 - Len reports exactly where an embedded schema, document or enum ends. DESIGN.md section 3 / C14."""
 import json
 import vlib
-from checks import semcommon
+from checks import semcommon, jsongraph
 
 PROP = "C14"
 
@@ -35,6 +35,26 @@ def run(tier, argv):
     for e in lines:
         if str(e.get("msg", "")).startswith("panic"):
             bad.append({"what": "panic", "dialect": e["dialect"], "text": e["text"], "ok": False, "len": -1, "msg": e["msg"]})
+    # the schema dialect with the whole notation: access string of every state of the SchemaText automaton + separator + foreign tail,
+    # judged on the bytes by TraceSchemaLen (SchemaText run by TLC over the logged text)
+    gpath, g = jsongraph.export_schema_graph(work, 1, 1 if quick else 2, rep, "l")
+    tr2 = work.path("slen.ndjson")
+    p = vlib.run_harness(hbin, ["c14slen", "-graph", gpath, "-out", tr2], timeout=3000)
+    if p.returncode != 0:
+        raise vlib.Infra("c14slen failed: " + p.stderr.decode()[-2000:])
+    lines2 = list(vlib.read_ndjson(tr2))
+    r = vlib.tlc(work, "TraceSchemaLen", "TraceSchemaLen.cfg", consts={"TraceFile": '"%s"' % tr2}, timeout=6000, heap="16g")
+    rep.add_tlc(r, "TraceSchemaLen over %d Schema.Len() calls" % len(lines2))
+    if r.distinct != len(lines2) + 1:
+        raise vlib.Infra("trace not consumed: %d states for %d events" % (r.distinct, len(lines2)))
+    for l in r.tagged("@@MISMATCH"):
+        m = json.loads(l)
+        e = lines2[m["line"] - 1]
+        bad.append({"what": m["what"], "dialect": "schema (notation automaton)", "text": e["text"], "ok": e["ok"], "len": e["len"], "msg": e.get("msg")})
+    for e in lines2:
+        if str(e.get("msg", "")).startswith("panic"):
+            bad.append({"what": "panic", "dialect": "schema (notation automaton)", "text": e["text"], "ok": False, "len": -1, "msg": e["msg"]})
+    lines = lines + [dict(e, dialect="schema-notation") for e in lines2]
     by = {}
     for e in lines:
         by[e["dialect"]] = by.get(e["dialect"], 0) + 1
@@ -46,7 +66,8 @@ def run(tier, argv):
     rep.cov["traces_validated_against_impl"] = len(lines)
     rep.cov["rule"] = ("random JSON texts (with separators, directive-like tails, truncations at random offsets, byte mutations) through Document.Len, and as plain schemas / "
                        "scalar arrays through Schema.Len / Enum.Len, judged on the bytes by the RFC 8259 automaton; generated schemas (rules, types, shortcuts, notes) "
-                       "and enum rules in 4 layouts x 9 separators x 6 tails judged by LenSpec!InDomain")
+                       "and enum rules in 4 layouts x 9 separators x 14 tails judged by LenSpec!InDomain; the access string of every state of the schema notation's reference automaton "
+                       "(annotations, comments, shortcuts, rule objects) x separators x tails judged on the bytes by SchemaText")
     return rep, bad
 
 
